@@ -127,7 +127,7 @@ class C14:
     PROBES = ['natural_raise', 'raise_mid_export', 'interrupt_delivered', 'memerr_delivered', 'range_inside_split', 'options_object_reused',
               'doc_with_error_tokens', 'io_fault_on_dump', 'compared_with_fresh', 'background_ops', 'graph_compared', 'two_imports_battery',
               'dump_compared', 'args_checked', 'caller_edited_a_result', 'reentrant_callback_delivered', 'argument_object_reused', 'reference_deferred', 'target_clobbered_between_two_dumps',
-              'graph_to_a_narrow_stdout', 'background_file_import', 'reader_setting_canaries_compared']
+              'graph_to_a_narrow_stdout', 'background_file_import', 'reader_setting_canaries_compared', 'document_without_any_measure']
 
     # ================================================================ plan
     def gen_plan(self, seed, index, tier):
@@ -136,6 +136,10 @@ class C14:
         faulty = erng.random() < 0.5
         F = docgen.swarm_features(drng, combining_sigs=False, quote_cells=False, uls_cells=False, notelike_nonkern=(drng.random() < 0.2))
         doc = docgen.gen_doc(drng, F, min_measures=drng.choice([0, 0, 2, 3]))
+        if st['shape'].random() < 0.04:
+            # boundary: content but NO measure at all - every data and barline row removed, interpretations and comments stay
+            # (own PRNG stream; the other streams' draws are unchanged)
+            doc = docgen.Doc(doc.headers, [r for r in doc.rows if r.kind not in ('data', 'bar')], doc.features)
         damage = []
         if drng.random() < 0.3:
             cells = [(ri, ci, c) for ri, ci, c in doc.data_cells() if doc.headers[c.spine] == '**kern' and doc.rows[ri].kind in ('data', 'interp')]
@@ -300,6 +304,8 @@ class C14:
         log.emit('client', 'import', digest_of(text), errors_snapshot(L_err))
         if L_err:
             bump(probes, 'doc_with_error_tokens')
+        if not L.measure_start_tree_stages:
+            bump(probes, 'document_without_any_measure')
         others = []
         for t in other_texts:
             try:
@@ -643,10 +649,28 @@ class C14:
 
         stream_state = {'reported': False}
 
+        def interpreter_state():
+            """Process-wide interpreter settings a library call has no business changing."""
+            import csv as _csv
+            import logging as _logging
+            import sys as _sys
+            import warnings as _warnings
+            return {'warnings.filters': [repr(f) for f in _warnings.filters], 'recursionlimit': _sys.getrecursionlimit(),
+                    'csv.field_size_limit': _csv.field_size_limit(), 'logging.root.level': _logging.getLogger().level,
+                    'logging.disable': _logging.root.manager.disable, 'sys.stdout': id(_sys.stdout), 'sys.stderr': id(_sys.stderr)}
+        interp0 = interpreter_state()
+
         def after_op(opname, idx):
             if run_stdout.closed and not stream_state['reported']:
                 stream_state['reported'] = True
                 add_v('stream-closed', f'stream-closed/stdout/by={opname}', 'the caller\'s stdout stays open', 'closed', op=opname, index=idx)
+            ist = interpreter_state()
+            if ist != interp0:
+                key = next(k for k in interp0 if interp0[k] != ist.get(k))
+                add_v('interpreter-state-mutated', f'interpreter-state-mutated/{key}/by={opname}', interp0[key] if key != 'warnings.filters' else len(interp0[key]),
+                      ist.get(key) if key != 'warnings.filters' else len(ist[key]), op=opname, index=idx)
+                interp0.clear()
+                interp0.update(ist)
             s = doc_snapshot(L)
             where = subsumes(snap0, s)
             if where:
